@@ -5,14 +5,18 @@ Legs (DESIGN 3.3):
       are regenerated from the snapshot; the theorems of Props/C01.lean are re-checked against them (framework).
   (b) model <-> code, text: Model/C01Codegen (typing by Gen + instruction selection) must print exactly the lines
       `chibicc -S` prints for `R f(T1 a, T2 b) { return a OP b; }`, every OP, every 9x9 pair, unary operators, casts.
-  (b2) Model/C01Expr `compileE` / `compileX` (the objects of C01_value / C01_value_effects: gen_expr on whole expression trees
-      incl. `,` `=` `op=` `++` `--` with the hidden temporaries of parse.c to_assign / new_inc_dec): instruction text of
-      generated nests = `chibicc -S`, stack depth = depthX, and chibicc's frame offsets satisfy `layoutOK` (C01_layout).
+  (b2) Model/C01Expr `compileE` / `compileX` and Model/C01ExprJ `compileJ` (the objects of C01_value / C01_value_effects /
+      C01_value_full: gen_expr on whole expression trees incl. `,` `=` `op=` `++` `--` with the hidden temporaries of parse.c
+      to_assign / new_inc_dec, and `&&` `||` `?:` with cmp_zero, je / jne / jmp and the labels numbered from count()): text of
+      instructions, label definitions and jump targets of generated nests = `chibicc -S` (label numbers exact: the counter
+      is followed through the translation unit), stack depth = depthJ, and chibicc's frame offsets satisfy `layoutOK`.
   (b3) pointer arithmetic (parse.c new_add / new_sub; C01_ptr_scale / C01_ptr_add / C01_ptr_diff): instruction text of p+i, i+p,
       p-i, &p[i], p-q, p+=i, p-=i, ++p, --p, p++, p-- for every element size x index type = the model (64-bit imul of the
       sign/zero-extended index); plus an end-to-end oracle with byte offsets beyond 2^31 / 2^32 inside a 16 GiB PROT_NONE mapping.
   (c) Model/X86 <-> CPU: every sequence the theorems talk about is assembled and run on the host on boundary + random
-      register files; registers and defined flags must equal `drv_c01 x86exec`; #DE must coincide with `none`.
+      register files; registers and defined flags must equal `drv_c01 x86exec`; #DE must coincide with `none`.  Model/X86Jump
+      (labels and jumps): cmp / test followed by each of the fourteen jCC, and cmp_zero + je / jne on every operand type,
+      assembled with real labels; whether the jump is taken must equal `runJ`.
   (d) Spec <-> gcc and Spec <-> chibicc, end to end: generated expression programs (exhaustive operator x 9x9 type pairs
       at depth 1 on boundary values, seeded random nests to depth 6, every context) are evaluated by Spec/IntSpec
       (`drv_c01 eval`; undefined cases dropped and counted), compiled by chibicc and by gcc, run, and value / sizeof /
@@ -39,9 +43,14 @@ TRUSTED_BASE = [
     'Model/C01Expr.lean (compileE / compileX: gen_expr on whole expression trees, the parse.c rewritings of op= / ++ / -- with '
     'their hidden temporaries, pointer-arithmetic scaling of new_add / new_sub); tied by instruction-text equality with '
     '`chibicc -S` on generated nests and on every pointer form x element size x index type; frame offsets checked by layoutOK',
+    'Model/C01ExprJ.lean (compileJ: compileX extended by && || ?: as ND_LOGAND / ND_LOGOR / ND_COND print them, label numbers '
+    'from the counter count() in the order of emission); tied by text equality (instructions, label definitions, jump '
+    'targets, exact label numbers) with `chibicc -S` on generated nests',
+    'Model/X86Jump.lean (programs with labels and jumps on top of Model/X86: label resolution by position, jCC reads the flags '
+    'like setCC); validated on every run against the host CPU (cmp / test + each jCC, cmp_zero + je / jne, real labels)',
     'translators tools/extract/commontype.py (get_common_type, add_type rules, primitive types) and casttable.py '
     '(cast_table, getTypeId); argument / return / initializer conversion insertion of parse.c is modelled as a cast of the '
-    'expression (tied by the text legs); `&&` `||` `?:` (jumps), postfix ++/-- on _Bool, lvalues other than variables and '
+    'expression (tied by the text legs); postfix ++/-- on _Bool, lvalues other than variables and '
     'compound assignment to pointers are covered by the text ties and the end-to-end oracle only (testing)',
 ]
 ASSUMPTIONS = ['LP64, plain char signed, two\'s complement, arithmetic >> on signed (gcc\'s documented choices)',
@@ -839,6 +848,12 @@ def tie_c(e):
         return f'(({CNAME[e[1]]}){tie_c(e[2])})'
     if k == 'SEQ':
         return f'({tie_c(e[1])}, {tie_c(e[2])})'
+    if k == 'AND':
+        return f'({tie_c(e[1])} && {tie_c(e[2])})'
+    if k == 'OR':
+        return f'({tie_c(e[1])} || {tie_c(e[2])})'
+    if k == 'C':
+        return f'({tie_c(e[1])} ? {tie_c(e[2])} : {tie_c(e[3])})'
     if k == 'SET':
         return f'(v{e[1]} = {tie_c(e[2])})'
     if k == 'OPSET':
@@ -847,9 +862,16 @@ def tie_c(e):
         return rc(e, [])
     raise ValueError(e)
 
-def gen_tie(rng, depth, tys, effects):
+JUMPS = ('AND', 'OR', 'C')
+
+def count_labels(e):
+    """how many times gen_expr calls count() for the expression: once per `&&`, `||`, `?:`"""
+    return sum(1 for x in subexprs(e) if x[0] in JUMPS)
+
+def gen_tie(rng, depth, tys, effects, jumps=False):
     """pure nests (effects=False) or nests with `,` `=` `op=` `++` `--` on variables anywhere (the text is never run, so
-    conflicting accesses are allowed here; the no-conflict side condition of the theorem is reported by the driver)"""
+    conflicting accesses are allowed here; the no-conflict side condition of the theorem is reported by the driver);
+    jumps=True: also `&&` `||` `?:` anywhere (operands of operators, of casts, of op=, conditions of ?:, nested)"""
     n = len(tys)
     if depth == 0 or rng.random() < 0.1:
         if effects and rng.random() < 0.25:
@@ -859,7 +881,14 @@ def gen_tie(rng, depth, tys, effects):
                 return (k, rng.choice(cand))
         return ('V', rng.randrange(n)) if rng.random() < 0.7 else tie_lit(rng)
     x = rng.random()
-    sub = lambda: gen_tie(rng, depth - 1, tys, effects)
+    sub = lambda: gen_tie(rng, depth - 1, tys, effects, jumps)
+    if jumps and rng.random() < 0.3:
+        y = rng.random()
+        if y < 0.3:
+            return ('AND', sub(), sub())
+        if y < 0.6:
+            return ('OR', sub(), sub())
+        return ('C', sub(), sub(), sub())
     if effects and x < 0.34:
         y = rng.random()
         if y < 0.2:
@@ -920,6 +949,26 @@ def check_compile(ctx, corr, N):
                 fixed.append(([t], 'i64', (k, 0)))
         for t2 in TYS:
             fixed.append(([t, t2], 'i32', ('SET', 0, ('V', 1))))
+    # && || ?: (Model/C01ExprJ compileJ, theorem C01_value_full): cmp_zero on every operand type, arms of unequal types,
+    # nesting on either side of every binary operator (label numbers follow the order of emission: right-hand node first),
+    # inside op= / = / casts / unary operators, side effects in conditionally evaluated operands
+    for t in TYS:
+        t2 = TYS[(TYS.index(t) * 2 + 3) % 9]
+        fixed.append(([t, t2], 'i32', ('AND', ('V', 0), ('V', 1))))
+        fixed.append(([t, t2], 'i64', ('OR', ('V', 0), ('V', 1))))
+        fixed.append(([t, t2, 'i16'], 'u64', ('C', ('V', 0), ('V', 1), ('V', 2))))
+        fixed.append(([t, t2], 'i32', ('C', ('V', 1), ('V', 0), ('V', 0))))
+    for op in BINOPS:
+        fixed.append((['u8', 'i64', 'i16'], 'i32', ('B', op, ('AND', ('V', 0), ('V', 2)), ('C', ('V', 1), ('V', 2), ('V', 0)))))
+        fixed.append((['u32', 'i32', 'bool'], 'u64', ('B', op, ('OR', ('V', 2), ('AND', ('V', 0), ('V', 1))), ('V', 1))))
+    for op in COMPOUND:
+        fixed.append((['i16', 'u32', 'i64'], 'i64', ('OPSET', op, 0, ('C', ('V', 1), ('V', 2), ('PREINC', 1)))))
+    fixed += [(['i32', 'i64', 'u8'], 'i64', ('C', ('AND', ('V', 0), ('OR', ('V', 1), ('V', 2))), ('C', ('V', 2), ('V', 0), ('V', 1)),
+                                               ('SEQ', ('POSTINC', 0), ('V', 2)))),
+              (['i32', 'i64', 'u8'], 'bool', ('SET', 2, ('AND', ('SET', 0, ('V', 1)), ('OPSET', 'add', 1, ('OR', ('V', 0), ('V', 2)))))),
+              (['bool', 'u16'], 'i8', ('U', 'neg', ('CAST', 'i8', ('U', 'lognot', ('OR', ('V', 0), ('AND', ('V', 1), ('V', 0))))))),
+              (['u64', 'i8'], 'u32', ('C', ('C', ('V', 0), ('V', 1), ('V', 0)), ('C', ('V', 1), ('L', 'i32', 1), ('L', 'u64', 2)),
+                                      ('AND', ('L', 'i32', 0), ('V', 1))))]
     for k in range(max(N, len(fixed))):
         if k < len(fixed):
             tys, ret, e = fixed[k]
@@ -927,7 +976,7 @@ def check_compile(ctx, corr, N):
             n = rng.randrange(1, 7)
             tys = [rng.choice(TYS) for _ in range(n)]
             ret = rng.choice(TYS)
-            e = gen_tie(rng, rng.randrange(1, 6), tys, effects=(k % 2 == 1))
+            e = gen_tie(rng, rng.randrange(1, 6), tys, effects=(k % 2 == 1), jumps=(k % 4 >= 2))
         name = f'c{k}'
         params = ', '.join(f'{CNAME[t]} v{i}' for i, t in enumerate(tys))
         src += f'{CNAME[ret]} {name}({params}) {{ return {tie_c(e)}; }}\n'
@@ -939,10 +988,18 @@ def check_compile(ctx, corr, N):
         corr.violations.append({'what': 'chibicc -S fails on functions returning an integer expression', 'input': src[:600],
                                 'expected': 'compiles', 'got': err[-300:]})
         return
-    req, live = '', []
+    # `count()` is one counter for the translation unit: a function's first label number is what the functions emitted
+    # before it left (chibicc emits the functions of a file in reverse order of definition; the order is read from the text)
+    byname = {name: e for name, tys, ret, e in cases}
+    c0, ctr = {}, 1
+    for nm in re.findall(r'^(c\d+):$', asm, re.M):
+        if nm in byname and nm not in c0:
+            c0[nm] = ctr
+            ctr += count_labels(byname[nm])
+    req, reqx, live = '', '', []
     for name, tys, ret, e in cases:
         lines = fn_text(asm, name)
-        if lines is None or len(lines) < 4 + len(tys):
+        if lines is None or len(lines) < 4 + len(tys) or name not in c0:
             corr.disagreements.append({'kind': 'asm-text', 'spec': name, 'note': 'function not found in chibicc -S output'})
             return
         offs = []
@@ -958,37 +1015,59 @@ def check_compile(ctx, corr, N):
         if not mm:
             corr.disagreements.append({'kind': 'asm-text', 'spec': name, 'note': 'prologue of unknown shape: ' + lines[2]})
             return
-        req += f"{','.join(tys)} {','.join(offs)} {','.join(str(x) for x in temps) or '-'} {mm.group(1)} | CAST {ret} {rp(e)}\n"
-        live.append((name, tys, ret, e, body, len(temps)))
-    model = ctx.driver('compilex', req).splitlines()
+        hd = f"{','.join(tys)} {','.join(offs)} {','.join(str(x) for x in temps) or '-'} {mm.group(1)}"
+        req += f"{hd} {c0[name]} | CAST {ret} {rp(e)}\n"
+        jumpy = count_labels(e) > 0
+        if not jumpy:
+            reqx += f"{hd} | CAST {ret} {rp(e)}\n"
+        live.append((name, tys, ret, e, body, len(temps), jumpy))
+    model = ctx.driver('compilej', req).splitlines()
+    modelx = iter(ctx.driver('compilex', reqx).splitlines())
     if len(model) != len(live):
-        corr.disagreements.append({'kind': 'driver', 'note': f'drv_c01 compilex answered {len(model)} lines for {len(live)} expressions'})
+        corr.disagreements.append({'kind': 'driver', 'note': f'drv_c01 compilej answered {len(model)} lines for {len(live)} expressions'})
         return
-    for (name, tys, ret, e, got, ntemps), m in zip(live, model):
+    for (name, tys, ret, e, got, ntemps, jumpy), m in zip(live, model):
         corr.evaluations += 1
         ctext = [l for l in src.splitlines() if f' {name}(' in l][0]
-        w = m.split(' ', 7)
-        if w[0] != 'ok' or len(w) < 8:
-            corr.disagreements.append({'kind': 'asm-text', 'c': ctext, 'note': 'compileX does not handle the expression: ' + m[:80]})
+        # compileJ: ok type slots temps c1 nc isx lay lines
+        w = m.split(' ', 8)
+        if w[0] != 'ok' or len(w) < 9:
+            corr.disagreements.append({'kind': 'asm-text', 'c': ctext, 'note': 'compileJ does not handle the expression: ' + m[:80]})
             return
+        # compileX (expressions without && || ?:): ok type slots temps nc pure lay ins
+        wx = None
+        if not jumpy:
+            wx = next(modelx, 'missing').split(' ', 7)
+            if wx[0] != 'ok' or len(wx) < 8:
+                corr.disagreements.append({'kind': 'asm-text', 'c': ctext, 'note': 'compileX does not handle the expression: ' + ' '.join(wx)[:80]})
+                return
         is_pure = all(x[0] in ('L', 'V', 'U', 'B', 'CAST') for x in subexprs(e))
-        corr.count('compile-tie:' + ('pure' if is_pure else 'effects, no conflict' if w[4] == '1' else 'effects, conflicting accesses'))
-        want = [] if w[7] == 'empty' else w[7].split(';;')
+        no_effects = all(x[0] in ('L', 'V', 'U', 'B', 'CAST') + JUMPS for x in subexprs(e))
+        corr.count('compile-tie:' + ('&& || ?:, ' if jumpy else '') +
+                   ('pure' if no_effects else 'effects, no conflict' if w[5] == '1' else 'effects, conflicting accesses'))
+        want = [] if w[8] == 'empty' else w[8].split(';;')
         if len(got) > 12:
             corr.nontrivial.add('tie:' + hashlib.sha1(ctext.encode()).hexdigest())
         bad = None
         if got != want:
             j = next((i for i in range(min(len(got), len(want))) if got[i] != want[i]), min(len(got), len(want)))
-            bad = {'first_difference_at': j, 'chibicc': got[j:j + 4], 'model': want[j:j + 4],
-                   'note': 'Model/C01Expr compileX (the object of C01_value / C01_value_effects) does not print what chibicc -S prints'}
+            bad = {'first_difference_at': j, 'chibicc': got[j:j + 4], 'model': want[j:j + 4], 'first_label_number': c0[name],
+                   'note': 'Model/C01ExprJ compileJ (the object of C01_value_full; on jump-free expressions = compileX, the object of '
+                           'C01_value / C01_value_effects) does not print what chibicc -S prints (instructions, labels, jump targets)'}
+        elif int(w[4]) != c0[name] + count_labels(e):
+            bad = {'note': f'label counter: the model leaves count() at {w[4]}, the expression has {count_labels(e)} `&&`/`||`/`?:` from {c0[name]}'}
         elif push_depth(got) != int(w[2]):
-            bad = {'note': f'stack slots: chibicc nests push {push_depth(got)} deep, depthX = {w[2]}'}
+            bad = {'note': f'stack slots: chibicc nests push {push_depth(got)} deep, depthJ = {w[2]}'}
         elif ntemps != int(w[3]):
             bad = {'note': f'hidden temporaries: chibicc uses {ntemps} frame slots besides the parameters, the model {w[3]}'}
-        elif w[6] != '1':
+        elif w[7] != '1':
             bad = {'note': 'frame layout: the variables and hidden temporaries of the function do not lie pairwise disjoint inside the '
-                           'frame `sub $N, %rsp` allocates (hypothesis `Lay` of C01_value_effects, `layoutOK`)'}
-        elif is_pure != (w[5] == '1'):
+                           'frame `sub $N, %rsp` allocates (hypothesis `Lay` of C01_value_effects / C01_value_full, `layoutOK`)'}
+        elif (w[6] == '1') != (not jumpy):
+            bad = {'note': 'compileJ and compileX disagree on an expression without && || ?:' if not jumpy else 'compileX accepts an expression with && || ?:'}
+        elif wx is not None and (wx[7] != w[8] or wx[1:5] != [w[1], w[2], w[3], w[5]] or wx[6] != w[7]):
+            bad = {'note': 'compileX and compileJ print different code / type / stack slots / temporaries for an expression without && || ?:'}
+        elif wx is not None and is_pure != (wx[5] == '1'):
             bad = {'note': 'compileE and compileX disagree on a pure expression' if is_pure else 'compileE accepts an expression with side effects'}
         if bad:
             bad.update({'kind': 'asm-text', 'c': ctext,
@@ -1102,6 +1181,18 @@ def x86_specs():
         for b in cells:
             if b != 'bool':
                 specs.append(f'cell {a} {b}')
+    # conditional jumps (Model/X86Jump): the flags of cmp / test read by each jCC; cmp_zero + je / jne on every operand type.
+    # the trailing number makes the labels of the sequence unique in the assembled file
+    n = 1
+    for cc in ('e', 'ne', 'l', 'le', 'g', 'ge', 'b', 'be', 'a', 'ae', 'p', 'np', 's', 'ns'):
+        for op in ('cmp', 'test'):
+            for w in (32, 64):
+                specs.append(f'jcc {cc} {op} {w} {n}')
+                n += 1
+    for t in TYS:
+        for cc in ('e', 'ne'):
+            specs.append(f'cmpz {t} {cc} {n}')
+            n += 1
     return sorted(set(specs))
 
 def check_cpu(ctx, corr, nrand):
@@ -1143,7 +1234,7 @@ def check_cpu(ctx, corr, nrand):
     for n, (s, t) in enumerate(live):
         cases = []
         kind = s.split()[0]
-        two = kind == 'op'
+        two = kind in ('op', 'jcc')
         pool = REGVALS
         for _ in range(nrand):
             a = rng.choice(pool) if rng.random() < 0.7 else rng.getrandbits(64)
@@ -1251,10 +1342,10 @@ def correspond(ctx, corr):
                  'chibicc and gcc and run: value mod 2^64, sizeof and signedness of the expression type and the variables '
                  'afterwards must agree three ways.  non-trivial = has an operator or conversion context and involves a type '
                  'other than int; distinct by (context, variable types and values, expression).  Plus: asm text of 1,300+ '
-                 'one-operator functions against the model; instruction text of generated expression trees (pure, and with , = op= '
-                 '++ --) and of every pointer-arithmetic form x element size x index type against compileE / compileX / scaleCode '
-                 '(non-trivial = more than 12 instructions); pointer scaling with byte offsets beyond 2^31 and 2^32 (non-trivial = '
-                 '|offset| >= 2^31); every modelled instruction sequence (incl. lea, mov $imm) against the host CPU.')
+                 'one-operator functions against the model; text (instructions, labels, jumps) of generated expression trees (pure, with '
+                 ', = op= ++ --, with && || ?:) and of every pointer-arithmetic form x element size x index type against compileE / '
+                 'compileX / compileJ / scaleCode (non-trivial = more than 12 lines); pointer scaling with byte offsets beyond 2^31 and 2^32 (non-trivial = '
+                 '|offset| >= 2^31); every modelled instruction sequence (incl. lea, mov $imm) and every conditional jump after cmp / test against the host CPU.')
     known_witness(ctx, corr)
     check_sequences(ctx, corr)
     if not corr.disagreements:
@@ -1318,15 +1409,18 @@ MANIFEST = {
                   'against byte-addressed memory (C01_load, C01_store); postfix ++/-- value formula for every type except _Bool '
                   '(C01_incdec_partial; _Bool bit-fields / _Atomic _Bool are known finding C01-bool-postfix-incdec with a kernel-checked witness); '
                   'COMPOSITION, by induction on the expression tree through the push/pop stack discipline over byte-addressed memory: '
-                  'every side-effect-free expression of arbitrary nesting (C01_value) and every expression with , = the ten op= and '
+                  'every side-effect-free expression of arbitrary nesting (C01_value), every expression with , = the ten op= and '
                   'prefix/postfix ++ -- on variables, including the hidden pointer temporaries of parse.c and the swap of evaluation '
-                  'order under the C11 no-conflict condition (C01_value_effects; frame hypothesis discharged from offsets by C01_layout) '
+                  'order under the C11 no-conflict condition (C01_value_effects; frame hypothesis discharged from offsets by C01_layout), '
+                  'and EVERY expression of the type E incl. && || ?: (C01_value_full: code with labels and jumps over a small-step machine '
+                  'with label resolution by position; freshness of the count() labels C01_labels_fresh; termination within code-length '
+                  'steps because every jump is forward; short-circuit evaluation: side effects of unevaluated operands do not happen) '
                   'leaves %rax representing the C11 value in the C11 type, the frame holding the C11 store, %rsp/%rbp and all other '
                   'memory at or above %rsp unchanged; pointer arithmetic scales the index by a 64-bit multiplication of the '
                   'sign/zero-extended index for every index type and value (C01_ptr_scale, C01_ptr_add, C01_ptr_diff).  Tied every run '
                   'by translators (tables), asm-text equality of 1,458 one-operator functions, of generated expression trees and of 550+ pointer-arithmetic functions with chibicc -S, CPU execution of every '
                   'modelled sequence, and a three-way chibicc / Spec / gcc oracle on generated expression programs in every context.',
-    'level_note': 'Not proved (no jumps in Model/X86): && || ?: inside expressions; postfix ++/-- on _Bool objects (two temporaries), '
+    'level_note': 'Not proved: postfix ++/-- on _Bool objects (two temporaries), '
                   'lvalues other than variables (members, dereferences, bit-fields), compound assignment / ++ -- on pointers (modelled '
                   'and text-tied, not proved), the typing function elab of parse.c as a whole (its table is proved: C01_op_type): '
                   'covered by the text ties and the end-to-end oracle (testing). '
